@@ -421,7 +421,7 @@ class TransactionOutput(CBORSerializable):
 
     script: Optional[Union[NativeScript, PlutusScript]] = None
 
-    post_alonzo: Optional[bool] = False
+    post_alonzo: Optional[bool] = field(default=False, compare=False)
 
     def __post_init__(self):
         if isinstance(self.address, str):
@@ -480,6 +480,7 @@ class TransactionOutput(CBORSerializable):
                     output.amount,
                     datum_hash=datum,
                     script=output.script,
+                    post_alonzo=True,
                 )
             else:
                 return cls(
@@ -487,6 +488,7 @@ class TransactionOutput(CBORSerializable):
                     output.amount,
                     datum=datum,
                     script=output.script,
+                    post_alonzo=True,
                 )
 
 
